@@ -140,7 +140,8 @@ def run_c10(ctx):
     ctx.rule = ("random seeds + RFC 8032 vectors: LongTermKey::new vs one-shot dalek vs the Python RFC 8032 transcription "
                 "(public key) and hashlib (SRV); certificates for sequences of versions from ONE LongTermKey object verify "
                 "under the right context only; repeated in-process server starts with one seed; non-trivial = distinct "
-                "seed, or a certificate sequence of length >= 2")
+                "seed, or a certificate sequence of length >= 2; the real binary with 4 workers sharing one configuration: "
+                "replies obtained from 24 source ports all verify under the seed's key")
     vlib.prepare(ctx, need_bins=True)
     r = ctx.rng
     seeds = [bytes.fromhex("9d61b19deffd5a60ba844af492ec2cc44449c5697b326919703bac031cae7f60"),
